@@ -136,6 +136,15 @@ RoundDivPow10(x, k) ==
   IF k = 0 THEN x ELSE Mk(x.s, MagDivPow10(MagAdd(x.d, MagMulSmall(MagPow10(k - 1), 5)), k))
 DivisibleByPow10(x, k) == MagMulPow10(MagDivPow10(x.d, k), k) = x.d
 
+(* quotients by a limb-sized k (1 <= k < Base): truncated and floored         *)
+TruncDivSmall(x, k) == Mk(x.s, MagDivSmall(x.d, k).q)
+FloorDivSmall(x, k) ==
+  IF x.s = 0 THEN Mk(0, MagDivSmall(x.d, k).q)
+  ELSE Mk(1, MagDivSmall(MagAdd(x.d, MagFromNatGen(k - 1)), k).q)        \* -ceil(|x| / k)
+FloorDivPow10(x, k) ==
+  IF x.s = 0 \/ k = 0 THEN TruncDivPow10(x, k)
+  ELSE Mk(1, MagDivPow10(MagAdd(x.d, MagSub(MagPow10(k), <<1>>)), k))
+
 (* 2^k by repeated limb multiplication                                       *)
 RECURSIVE MagPow2(_)
 MagPow2(k) == IF k = 0 THEN <<1>>
